@@ -27,7 +27,9 @@
    Constructors whose proof involves an induction are stated with obj2_same / obj3_same (same
    bounding box, pointwise the same distance function) so that no functional extensionality is
    used.  Union2D/Union3D: nil operands are stripped by the Go code; here all operands are non-nil.
-   Not covered: SetMin/SetMax/SetExtrude (the model's MinK/MaxK/extrusion arguments), Center2D,
+   SetMin/SetMax/SetExtrude: the new values of the fields they assign (UnionSDF2.SetMin: the blend
+   function and the flag that switches the box pruning off).
+   Not covered: Center2D,
    CenterAndScale2D, LineOf2D/3D, Multi2D/3D, Orient3D (compositions of the above), screw.go,
    poly.go, bezier.go, mesh2.go, text (tied by the sampled correspondence of C04/C17/C18 only). *)
 From Coq Require Import ZArith List Bool.
@@ -977,3 +979,23 @@ Theorem TRANSL_ScaleTwistExtrude3D_ctor : forall (O : Ops),
     option_map obj3_of (sdf_ScaleTwistExtrude3D (ev2 s) (bb2 s) height twist scale) = k_scaletwistextrude s height twist scale.
 Proof. exact (@ScaleTwistExtrude3D_ctor). Qed.
 Print Assumptions TRANSL_ScaleTwistExtrude3D_ctor.
+
+(* mutators *)
+Theorem TRANSL_UnionSDF2_SetMin : forall (O : Ops),
+    forall mk : MinK O, mk <> MinDef ->
+    sdf_UnionSDF2_SetMin (min_apply mk) = (min_apply mk, min_is_blend mk).
+Proof. exact (@UnionSDF2_SetMin_eq). Qed.
+Print Assumptions TRANSL_UnionSDF2_SetMin.
+
+Theorem TRANSL_SetMin_SetMax : forall (O : Ops),
+    forall f : T O -> T O -> T O,
+    sdf_IntersectionSDF2_SetMax f = f /\ sdf_DifferenceSDF2_SetMax f = f /\ sdf_ArraySDF2_SetMin f = f /\
+    sdf_RotateUnionSDF2_SetMin f = f /\ sdf_UnionSDF3_SetMin f = f /\ sdf_DifferenceSDF3_SetMax f = f /\
+    sdf_IntersectionSDF3_SetMax f = f /\ sdf_ArraySDF3_SetMin f = f /\ sdf_RotateUnionSDF3_SetMin f = f.
+Proof. exact (@SetMin_SetMax_eq). Qed.
+Print Assumptions TRANSL_SetMin_SetMax.
+
+Theorem TRANSL_SetExtrude : forall (O : Ops),
+    forall f : V3 O -> V2 O, sdf_ExtrudeSDF3_SetExtrude f = f.
+Proof. exact (@SetExtrude_eq). Qed.
+Print Assumptions TRANSL_SetExtrude.
